@@ -34,6 +34,19 @@
 //!              a context text (`evaluate_context`) and of a context literal, the `name` attributes of a DMN model (input
 //!              data, required decision, item component) — every spelling of the declaration × every spelling of the
 //!              reference; the declared value must come out.
+//! * `flagged`  impl ⊨ spec: bound names of several words / joined by symbols FOLLOWED by an operator, a number, a path or a
+//!              keyword, as operands of arithmetic chains (`+ - * / **` with and without blanks, unary minus, parentheses,
+//!              the path into a bound context) inside every construct that sets a lexer flag or mode: `between … and`
+//!              (14 shapes: both bounds, in if / list / filter / context / for / function, two clauses in a row),
+//!              `for / some / every … in` (12 shapes, ranges, two iteration contexts, a variable that continues a bound
+//!              name), `instance of` and the type positions (10), unary tests inside an expression (10: intervals in all
+//!              bracket spellings, comparison signs, in-lists) and as start symbol (14, evaluated as `input value in
+//!              <tests>` the way a decision table does), `function(…)` with typed and untyped parameters and named
+//!              arguments (8), plus 8 shapes without a flag; scopes closed under prefixes and operator-joined
+//!              combinations, sometimes with a bound name that continues another by an operator and a number
+//!              (`base pay-100`). The expectation is written out: the harness resolves every run of name parts by the
+//!              longest-match rule (its own walk over the parts the text was made of), computes the arithmetic with
+//!              exact rationals and the construct by its FEEL meaning. (Seeded change C10-18.)
 //! * `history`  impl ⊨ spec: at the end of the run texts are evaluated again in their own scope (the specification's value
 //!              must come out again) and in the scope of another case, on this thread and on a fresh thread (equal).
 
@@ -1503,11 +1516,660 @@ pub fn run(cfg: &Cfg) -> Report {
   }
 
   lexfix_families(&mut rep, &mut model);
+  flagged_family(&mut rep, &mut model, &mut rng, thorough);
   namechar_family(&mut rep, &mut model, &mut rng, thorough);
   declared_family(&mut rep, &mut rng, thorough);
 
   rep.model_requests = model.requests;
   rep
+}
+
+// ------------------------------------------------------------------------------------------
+// flagged: bound names followed by an operator, a number, a path or a keyword inside every construct that sets a
+// lexer flag or mode (`between … and`, `for … in`, `instance of`, unary tests, `function(…)`, type positions)
+// ------------------------------------------------------------------------------------------
+//
+// The expectation is written out: the harness resolves every run of name parts by the longest-match rule of the
+// property (its own walk over the parts the text was made of, never over the text), computes the arithmetic with exact
+// rationals and the construct around it by its FEEL meaning (`x between a and b` = a <= x and x <= b, …).
+
+const SIG_FLAGGED: &str = "a bound name followed by an operator, a number, a path or a keyword does not evaluate to its bound value";
+
+/// An exact rational (always normalised, denominator > 0).
+#[derive(Clone, Copy, Debug, PartialEq)]
+struct Rat(i128, i128);
+
+fn gcd(a: i128, b: i128) -> i128 {
+  if b == 0 {
+    a.abs()
+  } else {
+    gcd(b, a % b)
+  }
+}
+
+impl Rat {
+  fn new(n: i128, d: i128) -> Option<Rat> {
+    if d == 0 || n.abs() > (1i128 << 60) || d.abs() > (1i128 << 60) {
+      return None;
+    }
+    let g = gcd(n, d).max(1);
+    let s = if d < 0 { -1 } else { 1 };
+    Some(Rat(s * n / g, s * d / g))
+  }
+  fn int(self) -> Option<i128> {
+    if self.1 == 1 {
+      Some(self.0)
+    } else {
+      None
+    }
+  }
+}
+
+/// What a text is made of, in order; the text itself is never read back.
+#[derive(Clone, Debug, PartialEq)]
+enum At {
+  Word(String),
+  Sym(String),
+  Num(String),
+  Open,
+  Close,
+}
+
+#[derive(Clone, Debug, PartialEq)]
+enum FTk {
+  Val(Rat),
+  Ctx,
+  Plus,
+  Minus,
+  Mul,
+  Div,
+  Exp,
+  Dot,
+  Seg(String),
+  Open,
+  Close,
+}
+
+/// A bound value of the family: a number or the context `{fld: 2}`.
+#[derive(Clone, Debug)]
+enum FVal {
+  Num(i128),
+  Ctx,
+}
+
+fn atoms_of_parts(parts: &[String]) -> Vec<At> {
+  parts
+    .iter()
+    .map(|p| {
+      if is_symbol(p) {
+        At::Sym(p.clone())
+      } else if p.chars().next().map_or(false, |c| c.is_ascii_digit()) {
+        At::Num(p.clone())
+      } else {
+        At::Word(p.clone())
+      }
+    })
+    .collect()
+}
+
+fn atom_text(a: &At) -> Option<&str> {
+  match a {
+    At::Word(s) | At::Sym(s) | At::Num(s) => Some(s.as_str()),
+    _ => None,
+  }
+}
+
+/// The longest-match rule: at the start of a run of name parts the longest prefix that is a bound name is the name;
+/// what is left of the run is read again (operators, numbers, the next name). `None`: the rule gives no reading
+/// (no bound name starts the run).
+fn resolve_atoms(atoms: &[At], bound: &[(Vec<String>, FVal)]) -> Option<Vec<FTk>> {
+  let mut out: Vec<FTk> = vec![];
+  let mut i = 0;
+  while i < atoms.len() {
+    match &atoms[i] {
+      At::Open => {
+        out.push(FTk::Open);
+        i += 1;
+      }
+      At::Close => {
+        out.push(FTk::Close);
+        i += 1;
+      }
+      At::Num(n) => {
+        out.push(FTk::Val(Rat::new(n.parse::<i128>().ok()?, 1)?));
+        i += 1;
+      }
+      At::Sym(s) => {
+        match s.as_str() {
+          "*" if atoms.get(i + 1) == Some(&At::Sym("*".into())) => {
+            out.push(FTk::Exp);
+            i += 1;
+          }
+          "*" => out.push(FTk::Mul),
+          "+" => out.push(FTk::Plus),
+          "-" => out.push(FTk::Minus),
+          "/" => out.push(FTk::Div),
+          "." => out.push(FTk::Dot),
+          _ => return None,
+        }
+        i += 1;
+      }
+      At::Word(w) => {
+        if out.last() == Some(&FTk::Dot) {
+          out.push(FTk::Seg(w.clone()));
+          i += 1;
+          continue;
+        }
+        let run: Vec<&str> = atoms[i..].iter().map_while(atom_text).collect();
+        let mut best: Option<(usize, &FVal)> = None;
+        for (parts, v) in bound {
+          let k = parts.len();
+          if k <= run.len() && parts.iter().zip(run.iter()).all(|(a, b)| a == b) && best.map_or(true, |(bk, _)| k > bk) {
+            best = Some((k, v));
+          }
+        }
+        let (k, v) = best?;
+        out.push(match v {
+          FVal::Num(n) => FTk::Val(Rat::new(*n, 1)?),
+          FVal::Ctx => FTk::Ctx,
+        });
+        i += k;
+      }
+    }
+  }
+  Some(out)
+}
+
+/// Arithmetic of FEEL over the resolved tokens: `+ -` below `* /` below `**` (all left-associative), unary minus,
+/// parentheses, the path `<context> . fld`.
+struct FParser<'a> {
+  ts: &'a [FTk],
+  i: usize,
+}
+
+impl<'a> FParser<'a> {
+  fn peek(&self) -> Option<&FTk> {
+    self.ts.get(self.i)
+  }
+  fn sum(&mut self) -> Option<Rat> {
+    let mut a = self.product()?;
+    loop {
+      match self.peek() {
+        Some(FTk::Plus) => {
+          self.i += 1;
+          let b = self.product()?;
+          a = Rat::new(a.0 * b.1 + b.0 * a.1, a.1 * b.1)?;
+        }
+        Some(FTk::Minus) => {
+          self.i += 1;
+          let b = self.product()?;
+          a = Rat::new(a.0 * b.1 - b.0 * a.1, a.1 * b.1)?;
+        }
+        _ => return Some(a),
+      }
+    }
+  }
+  fn product(&mut self) -> Option<Rat> {
+    let mut a = self.power()?;
+    loop {
+      match self.peek() {
+        Some(FTk::Mul) => {
+          self.i += 1;
+          let b = self.power()?;
+          a = Rat::new(a.0 * b.0, a.1 * b.1)?;
+        }
+        Some(FTk::Div) => {
+          self.i += 1;
+          let b = self.power()?;
+          a = Rat::new(a.0 * b.1, a.1 * b.0)?;
+        }
+        _ => return Some(a),
+      }
+    }
+  }
+  fn power(&mut self) -> Option<Rat> {
+    let mut a = self.unary()?;
+    while self.peek() == Some(&FTk::Exp) {
+      self.i += 1;
+      let b = self.unary()?.int()?;
+      if !(0..=3).contains(&b) {
+        return None;
+      }
+      let mut r = Rat(1, 1);
+      for _ in 0..b {
+        r = Rat::new(r.0 * a.0, r.1 * a.1)?;
+      }
+      a = r;
+    }
+    Some(a)
+  }
+  fn unary(&mut self) -> Option<Rat> {
+    if self.peek() == Some(&FTk::Minus) {
+      self.i += 1;
+      let a = self.unary()?;
+      return Rat::new(-a.0, a.1);
+    }
+    self.primary()
+  }
+  fn primary(&mut self) -> Option<Rat> {
+    match self.peek()?.clone() {
+      FTk::Val(q) => {
+        self.i += 1;
+        Some(q)
+      }
+      FTk::Ctx => {
+        // `<context> . fld`
+        if self.ts.get(self.i + 1) == Some(&FTk::Dot) && self.ts.get(self.i + 2) == Some(&FTk::Seg("fld".into())) {
+          self.i += 3;
+          Some(Rat(2, 1))
+        } else {
+          None
+        }
+      }
+      FTk::Open => {
+        self.i += 1;
+        let a = self.sum()?;
+        if self.peek() == Some(&FTk::Close) {
+          self.i += 1;
+          Some(a)
+        } else {
+          None
+        }
+      }
+      _ => None,
+    }
+  }
+}
+
+fn value_of_atoms(atoms: &[At], bound: &[(Vec<String>, FVal)]) -> Option<i128> {
+  let ts = resolve_atoms(atoms, bound)?;
+  let mut p = FParser { ts: &ts, i: 0 };
+  let v = p.sum()?;
+  if p.i == ts.len() {
+    v.int()
+  } else {
+    None
+  }
+}
+
+/// An arithmetic chain of one to three operands (bound names in any spelling, numbers, the path into the bound
+/// context, a parenthesised chain) joined by `+ - * / **` written with and without blanks, optionally negated:
+/// the text and what it is made of.
+fn gen_chain(rng: &mut Rng, numeric: &[Bound], ctx: Option<&Bound>, depth: u32) -> (String, Vec<At>) {
+  let n = 1 + rng.below(3) as usize;
+  let forced = rng.below(n as u64) as usize;
+  let mut text = String::new();
+  let mut atoms: Vec<At> = vec![];
+  let mut ops: Vec<&'static str> = vec![];
+  for _ in 1..n {
+    let op = *rng.pick(&["+", "-", "*", "/", "**", "+", "-"]);
+    // at most one `**` (its associativity is C06's business)
+    ops.push(if op == "**" && ops.contains(&"**") { "*" } else { op });
+  }
+  let additive_only = ops.iter().all(|o| *o == "+" || *o == "-");
+  if additive_only && depth == 0 && rng.chance(1, 8) {
+    text.push('-');
+    if rng.chance(1, 3) {
+      text.push(' ');
+    }
+    atoms.push(At::Sym("-".into()));
+  }
+  for k in 0..n {
+    if k > 0 {
+      let op = ops[k - 1];
+      if rng.chance(2, 3) {
+        text.push(' ');
+      }
+      text.push_str(op);
+      if rng.chance(2, 3) {
+        text.push(' ');
+      }
+      for c in op.chars() {
+        atoms.push(At::Sym(c.to_string()));
+      }
+    }
+    let divisor = k > 0 && (ops[k - 1] == "/" || ops[k - 1] == "**");
+    let choice = if divisor { 100 } else if k == forced { 0 } else { rng.below(10) };
+    match choice {
+      100 => {
+        text.push('2');
+        atoms.push(At::Num("2".into()));
+      }
+      0..=5 => {
+        let b = rng.pick(numeric);
+        text.push_str(&render(rng, &b.parts));
+        atoms.extend(atoms_of_parts(&b.parts));
+      }
+      6 | 7 => {
+        let lit = *rng.pick(&["1", "2", "3", "10", "100"]);
+        text.push_str(lit);
+        atoms.push(At::Num(lit.into()));
+      }
+      8 if ctx.is_some() => {
+        let c = ctx.unwrap();
+        text.push_str(&render(rng, &c.parts));
+        text.push_str(*rng.pick(&[".fld", " . fld", ". fld"]));
+        atoms.extend(atoms_of_parts(&c.parts));
+        atoms.push(At::Sym(".".into()));
+        atoms.push(At::Word("fld".into()));
+      }
+      9 if depth == 0 => {
+        let (t, a) = gen_chain(rng, numeric, ctx, 1);
+        text.push('(');
+        text.push_str(&t);
+        text.push(')');
+        atoms.push(At::Open);
+        atoms.extend(a);
+        atoms.push(At::Close);
+      }
+      _ => {
+        let b = rng.pick(numeric);
+        text.push_str(&render(rng, &b.parts));
+        atoms.extend(atoms_of_parts(&b.parts));
+      }
+    }
+  }
+  (text, atoms)
+}
+
+fn fb(b: bool) -> String {
+  b.to_string()
+}
+
+fn flist(xs: &[String]) -> String {
+  format!("[{}]", xs.join(", "))
+}
+
+/// Every construct of the family over six chains `e`, three bare names `m` and two local names (declaration and
+/// two later spellings each): (class, text, expected value).
+#[allow(clippy::too_many_arguments)]
+fn flagged_constructs(e: &[(String, i128)], hi: &Option<(String, i128)>, m: &[(String, i128)], l: &[[String; 3]; 2], xvar: &str, rng: &mut Rng) -> Vec<(&'static str, String, String)> {
+  let (t0, v0) = (&e[0].0, e[0].1);
+  let (t1, v1) = (&e[1].0, e[1].1);
+  let (t2, v2) = (&e[2].0, e[2].1);
+  let (t3, v3) = (&e[3].0, e[3].1);
+  let (t4, v4) = (&e[4].0, e[4].1);
+  let (t5, v5) = (&e[5].0, e[5].1);
+  let (m0, n0) = (&m[0].0, m[0].1);
+  let (m1, n1) = (&m[1].0, m[1].1);
+  let (m2, n2) = (&m[2].0, m[2].1);
+  let [l0d, l0a, l0b] = &l[0];
+  let [l1d, l1a, l1b] = &l[1];
+  let btw = |x: i128, a: i128, b: i128| a <= x && x <= b;
+  let s = |v: i128| v.to_string();
+  let mut out: Vec<(&'static str, String, String)> = vec![];
+  // ---- `between … and`: the flag `between` is set from the keyword up to the `and` of the clause
+  out.push(("between", format!("{} between {} and {}", t0, t1, t2), fb(btw(v0, v1, v2))));
+  out.push(("between", format!("[{} between {} and {}, {}]", t0, t1, t2, t3), flist(&[fb(btw(v0, v1, v2)), s(v3)])));
+  out.push(("between", format!("if {} between {} and {} then {} else {}", t0, t1, t2, t3, t4), s(if btw(v0, v1, v2) { v3 } else { v4 })));
+  out.push(("between", format!("{} between {} and {} and {} > 0", t0, t1, t2, t3), fb(btw(v0, v1, v2) && v3 > 0)));
+  out.push(("between", format!("for {} in [{}] return {} between {} and {}", l0d, t0, l0a, t1, t2), flist(&[fb(btw(v0, v1, v2))])));
+  out.push(("between", format!("{} between {} and {} or {} between {} and {}", t0, t1, t2, t3, t4, t5), fb(btw(v0, v1, v2) || btw(v3, v4, v5))));
+  out.push(("between", format!("({} between {} and {}) = ({} between {} and {})", t0, t1, t2, t3, t4, t5), fb(btw(v0, v1, v2) == btw(v3, v4, v5))));
+  out.push(("between", format!("{} between {} and {}", m0, t1, m1), fb(btw(n0, v1, n1))));
+  out.push(("between", format!("{} between {} and {}", t0, m0, m1), fb(btw(v0, n0, n1))));
+  out.push(("between", format!("{} between {} and {}", m2, m0, m1), fb(btw(n2, n0, n1))));
+  out.push((
+    "between",
+    format!("max([{}, {}][item between {} and {}])", t0, t3, t1, t2),
+    [v0, v3].iter().filter(|x| btw(**x, v1, v2)).max().map_or("null".to_string(), |x| s(*x)),
+  ));
+  out.push(("between", format!("{{w9: {} between {} and {}, w8: {}}}.w8", t0, t1, t2, t3), s(v3)));
+  out.push(("between", format!("{{w8: {}, w9: {} between {} and {}}}.w9", t3, t0, t1, t2), fb(btw(v0, v1, v2))));
+  out.push(("between", format!("(function({}) {} between {} and {})({})", l0d, l0a, t1, t2, t0), fb(btw(v0, v1, v2))));
+  // ---- `for / some / every … in`: the flag `till_in` is set from the keyword (and every comma) up to `in`
+  out.push(("iteration", format!("for {} in [{}, {}] return {} + {}", l0d, t0, t1, l0a, t2), flist(&[s(v0 + v2), s(v1 + v2)])));
+  if let Some((hi_text, hi)) = hi {
+    // the upper bound is the chain continued by ` + 2`, judged by the longest-match rule as a whole
+    out.push(("iteration", format!("for {} in {}..{} return {} * {}", l0d, t0, hi_text, l0a, m0), flist(&(v0..=*hi).map(|x| s(x * n0)).collect::<Vec<_>>())));
+  }
+  out.push(("iteration", format!("for {} in {}..{} return {}", l0d, m0, m0, l0a), flist(&[s(n0)])));
+  out.push(("iteration", format!("for {} in [{}], {} in [{}] return {} * {} + {}", l0d, t0, l1d, t1, l0a, l1a, t2), flist(&[s(v0 * v1 + v2)])));
+  out.push(("iteration", format!("some {} in [{}, {}] satisfies {} = {}", l0d, t0, t1, l0a, t2), fb(v0 == v2 || v1 == v2)));
+  out.push(("iteration", format!("some {} in [{}, {}] satisfies {} = {}", l0d, t0, t1, l0a, t0), fb(true)));
+  out.push(("iteration", format!("every {} in [{}, {}] satisfies {} >= {}", l0d, t0, t1, l0a, t2), fb(v0 >= v2 && v1 >= v2)));
+  out.push(("iteration", format!("some {} in [{}], {} in [{}] satisfies {} + {} > {}", l0d, t0, l1d, t1, l0a, l1a, t2), fb(v0 + v1 > v2)));
+  out.push(("iteration", format!("for {} in [1, 2] return {} + {}", xvar, xvar, t0), flist(&[s(1 + v0), s(2 + v0)])));
+  out.push(("iteration", format!("for {} in [{}] return {}", l0d, m0, m1), flist(&[s(n1)])));
+  out.push((
+    "iteration",
+    format!("for {} in [{}] return for {} in [{}] return {} - {} + {}", l0d, t0, l1d, t1, l0a, l1a, t2),
+    format!("[[{}]]", v0 - v1 + v2),
+  ));
+  out.push(("iteration", format!("for {} in [{}, {}] return {} in [{}, {}]", l0d, t0, t1, l0b, t2, t0), flist(&[fb(true), fb(v1 == v2 || v1 == v0)])));
+  // ---- `instance of` and the type positions: the flag `type_name` is set where a type is expected
+  out.push(("instance-of", format!("[{} instance of number, {}]", m0, t0), flist(&[fb(true), s(v0)])));
+  out.push(("instance-of", format!("[({}) instance of number, {}]", t0, t1), flist(&[fb(true), s(v1)])));
+  out.push(("instance-of", format!("[{} instance of list<number>, {}]", m0, t0), flist(&[fb(false), s(v0)])));
+  out.push(("instance-of", format!("if {} instance of list<number> then {} else {}", m0, t0, t1), s(v1)));
+  out.push(("instance-of", format!("[{} instance of function<number, number> -> number, {}]", m0, t0), flist(&[fb(false), s(v0)])));
+  out.push(("instance-of", format!("[{} instance of context<fld: number>, {}]", m0, t0), flist(&[fb(false), s(v0)])));
+  out.push(("instance-of", format!("[{} instance of range<number>, {}]", m0, t0), flist(&[fb(false), s(v0)])));
+  out.push(("instance-of", format!("({} instance of number) and {} > {}", m0, t0, t1), fb(v0 > v1)));
+  out.push(("instance-of", format!("[[{}] instance of list<number>, {}]", t0, t1), flist(&[fb(true), s(v1)])));
+  out.push(("instance-of", format!("[{} instance of string, {} instance of number]", m0, m1), flist(&[fb(false), fb(true)])));
+  // ---- unary tests inside an expression
+  let (ob, cb, lo_strict, hi_strict) = *rng.pick(&[("[", "]", false, false), ("(", ")", true, true), ("]", "[", true, true), ("(", "]", true, false), ("[", ")", false, true), ("]", "]", true, false), ("[", "[", false, true)]);
+  let in_iv = |x: i128, a: i128, b: i128| (if lo_strict { a < x } else { a <= x }) && (if hi_strict { x < b } else { x <= b });
+  out.push(("unary-test", format!("{} in {}{}..{}{}", t0, ob, m0, m1, cb), fb(in_iv(v0, n0, n1))));
+  out.push(("unary-test", format!("{} in ({}{}..{}{})", m2, ob, m0, m1, cb), fb(in_iv(n2, n0, n1))));
+  out.push(("unary-test", format!("{} in (< {}, > {})", t0, m0, m1), fb(v0 < n0 || v0 > n1)));
+  out.push(("unary-test", format!("{} in (<= {})", t0, m0), fb(v0 <= n0)));
+  out.push(("unary-test", format!("{} in (>={}, <{})", t0, m0, m1), fb(v0 >= n0 || v0 < n1)));
+  out.push(("unary-test", format!("{} in ({}, {})", t0, t1, t2), fb(v0 == v1 || v0 == v2)));
+  out.push(("unary-test", format!("{} in [{}, {}]", t0, t1, t2), fb(v0 == v1 || v0 == v2)));
+  out.push(("unary-test", format!("{} in ({}, {})", t0, t1, t0), fb(true)));
+  out.push(("unary-test", format!("[{} in (< {}), {}]", m2, m0, t0), flist(&[fb(n2 < n0), s(v0)])));
+  out.push(("unary-test", format!("if {} in [{}..{}] then {} else {}", m2, m0, m1, t0, t1), s(if btw(n2, n0, n1) { v0 } else { v1 })));
+  // ---- `function(…)`: formal parameters (a parsing context is pushed), typed parameters, named arguments
+  out.push(("function", format!("(function({}, {}) {} * {} + {})({}, {})", l0d, l1d, l0a, l1a, t0, t1, t2), s(v1 * v2 + v0)));
+  out.push(("function", format!("(function({}: number, {}: number) {} - {} + {})({}, {})", l0d, l1d, l0a, l1a, t0, t1, t2), s(v1 - v2 + v0)));
+  out.push((
+    "function",
+    format!("{{f: function({}: list<number>, {}) {}[1] + {} + {}, r: f([{}], {})}}.r", l0d, l1d, l0a, l1a, t0, t1, t2),
+    s(v1 + v2 + v0),
+  ));
+  out.push(("function", format!("{{f: function({}, {}) {} - {}, r: f({}: {}, {}: {})}}.r", l0d, l1d, l0a, l1a, l1b, t0, l0b, t1), s(v1 - v0)));
+  out.push(("function", format!("(function({}: range<number>, {}: number) {} + {})([1..2], {})", l0d, l1d, l1a, t0, t1), s(v1 + v0)));
+  out.push(("function", format!("(function() {})()", t0), s(v0)));
+  out.push(("function", format!("[(function({}: number) {})({}), {}]", l0d, l0a, t0, t1), flist(&[s(v0), s(v1)])));
+  out.push(("function", format!("(function({}) {} between {} and {})({})", l0d, t0, l0a, t1, t2), fb(btw(v0, v2, v1))));
+  // ---- the same chains where no flag is involved
+  out.push(("plain", format!("if {} > {} then {} else {}", t0, t1, t2, t3), s(if v0 > v1 { v2 } else { v3 })));
+  // (the maximum of the items: whether a filter that keeps one item gives the item or a list of it is not this property's business)
+  out.push(("plain", format!("max([{}, {}][item > {}])", t0, t1, t2), [v0, v1].iter().filter(|x| **x > v2).max().map_or("null".to_string(), |x| s(*x))));
+  out.push(("plain", format!("{{w9: {}, w8: w9 + {}}}.w8", t0, t1), s(v0 + v1)));
+  out.push(("plain", format!("max({}, {})", t0, t1), s(v0.max(v1))));
+  out.push(("plain", format!("{} < {} and {} >= {}", t0, t1, t2, t3), fb(v0 < v1 && v2 >= v3)));
+  out.push(("plain", format!("{} = {} or {} != {}", t0, t1, t2, t3), fb(v0 == v1 || v2 != v3)));
+  out.push(("plain", format!("not({} > {})", t0, t1), fb(!(v0 > v1))));
+  out.push(("plain", format!("[{}][1] + {}", t0, t1), s(v0 + v1)));
+  out
+}
+
+/// The unary tests of the family (start symbol `unary tests`): (text, does the input value `x` satisfy them).
+fn flagged_unary_tests(e: &[(String, i128)], m: &[(String, i128)], x: i128) -> Vec<(String, bool)> {
+  let (t0, v0) = (&e[0].0, e[0].1);
+  let (t1, v1) = (&e[1].0, e[1].1);
+  let (m0, n0) = (&m[0].0, m[0].1);
+  let (m1, n1) = (&m[1].0, m[1].1);
+  vec![
+    (format!("< {}", m0), x < n0),
+    (format!("<={}", m0), x <= n0),
+    (format!("> {}", m0), x > n0),
+    (format!(">= {}", m0), x >= n0),
+    (format!("{}, {}", t0, t1), x == v0 || x == v1),
+    (format!("{}", t0), x == v0),
+    (format!("[{}..{}]", m0, m1), n0 <= x && x <= n1),
+    (format!("({}..{}]", m0, m1), n0 < x && x <= n1),
+    (format!("]{}..{}[", m0, m1), n0 < x && x < n1),
+    (format!("not({}, {})", t0, t1), !(x == v0 || x == v1)),
+    (format!("not ({})", t0), x != v0),
+    (format!(">= {}, < {}", m0, m1), x >= n0 || x < n1),
+    (format!("not(< {})", m0), !(x < n0)),
+    (format!("{}, [{}..{}], > {}", t0, m0, m1, m1), x == v0 || (n0 <= x && x <= n1) || x > n1),
+  ]
+}
+
+fn flagged_family(rep: &mut Report, model: &mut Model, rng: &mut Rng, thorough: bool) {
+  use dmntk_feel::AstNode;
+  let n_scopes = if thorough { 6000 } else { 120 };
+  let mut reqs = vec![];
+  let mut toks = vec![];
+  for si in 0..n_scopes {
+    // numeric bound names of 1..4 words and symbols, closed under prefixes and operator-joined combinations
+    let mut bound: Vec<Bound> = gen_bound(rng, false).into_iter().filter(|b| !b.exotic).collect();
+    // values of their own, far enough apart for the comparisons to go both ways
+    for (i, b) in bound.iter_mut().enumerate() {
+      let n = [40i128, 7, 100, 3, 12, 55, 9][i % 7];
+      b.value = Value::Number(FeelNumber::from_i128(n));
+      b.literal = n.to_string();
+    }
+    // a name that continues a bound name with an operator and a number, or with an operator and another bound name
+    if si % 3 == 1 {
+      let a = rng.pick(&bound).clone();
+      let mut parts = a.parts.clone();
+      parts.push(rng.pick(&["-", "+", "*", "/"]).to_string());
+      if rng.chance(1, 2) {
+        parts.push(rng.pick(&["1", "2", "10", "100"]).to_string());
+      } else {
+        parts.extend(rng.pick(&bound).parts.clone());
+      }
+      let name = name_of(&parts);
+      if parts.len() <= 9 && !bound.iter().any(|b| b.name == name) {
+        bound.push(Bound { parts, name, value: Value::Number(FeelNumber::from_i128(977)), literal: "977".into(), exotic: false });
+      }
+    }
+    let numeric = bound.clone();
+    // a context-valued bound name
+    let ctx: Option<Bound> = if si % 2 == 0 {
+      let parts = gen_parts(rng);
+      let name = name_of(&parts);
+      if bound.iter().any(|b| b.name == name) || parts.iter().any(|p| p == "fld") {
+        None
+      } else {
+        let mut c = FeelContext::default();
+        c.set_entry(&Name::from("fld"), Value::Number(FeelNumber::from_i128(2)));
+        Some(Bound { parts, name, value: Value::Context(c), literal: "{fld: 2}".into(), exotic: false })
+      }
+    } else {
+      None
+    };
+    if let Some(c) = &ctx {
+      bound.push(c.clone());
+    }
+    let fbound: Vec<(Vec<String>, FVal)> = bound.iter().map(|b| (b.parts.clone(), if matches!(b.value, Value::Context(_)) { FVal::Ctx } else { FVal::Num(b.literal.parse().unwrap_or(0)) })).collect();
+    let competing = bound.iter().any(|a| bound.iter().any(|b| a.parts.len() < b.parts.len() && b.parts[..a.parts.len()] == a.parts[..]));
+    let bound_text = format!("{:?}", bound.iter().map(|b| (b.name.to_string(), b.literal.clone())).collect::<Vec<_>>());
+    // the chains and bare names of this scope, each judged by the longest-match rule on its own
+    let mut e: Vec<(String, i128)> = vec![];
+    let mut hi: Option<(String, i128)> = None;
+    let mut guard = 0;
+    while e.len() < 6 && guard < 200 {
+      guard += 1;
+      let (t, a) = gen_chain(rng, &numeric, ctx.as_ref(), 0);
+      match value_of_atoms(&a, &fbound) {
+        Some(v) if v.abs() < 1_000_000 => {
+          if e.is_empty() {
+            let mut a2 = a.clone();
+            a2.push(At::Sym("+".into()));
+            a2.push(At::Num("2".into()));
+            hi = value_of_atoms(&a2, &fbound).filter(|h| (0..=20).contains(&(h - v))).map(|h| (format!("{} + 2", t), h));
+          }
+          e.push((t, v))
+        }
+        _ => rep.hit("flagged:chain not judged (no integer value, or the longest match leaves no expression)"),
+      }
+    }
+    let mut m: Vec<(String, i128)> = vec![];
+    guard = 0;
+    while m.len() < 3 && guard < 50 {
+      guard += 1;
+      let b = rng.pick(&numeric);
+      if let Some(v) = value_of_atoms(&atoms_of_parts(&b.parts), &fbound) {
+        m.push((render(rng, &b.parts), v));
+      }
+    }
+    if e.len() < 6 || m.len() < 3 {
+      rep.hit("flagged:scope skipped");
+      continue;
+    }
+    // two local names of several parts that no bound name is a prefix of (finding F64 is about those)
+    let l0 = rng.below(LOCALS.len() as u64) as usize;
+    let l1 = (l0 + 1 + rng.below(LOCALS.len() as u64 - 1) as usize) % LOCALS.len();
+    let mut l: [[String; 3]; 2] = Default::default();
+    for (k, li) in [l0, l1].iter().enumerate() {
+      let parts: Vec<String> = LOCALS[*li].iter().map(|s| s.to_string()).collect();
+      l[k] = [render(rng, &parts), render(rng, &parts), render(rng, &parts)];
+    }
+    // an iteration variable that continues a bound name by a word
+    let xb = rng.pick(&numeric).clone();
+    let mut xparts = xb.parts.clone();
+    xparts.push("x9".into());
+    let xvar = canonical_text(&xparts);
+    let scope_keys = sorted_keys(&scope_of(&bound));
+    for (class, text, want) in flagged_constructs(&e, &hi, &m, &l, &xvar, rng) {
+      rep.case(&format!("flagged|{}|{}", bound_text, text), true);
+      rep.hit(&format!("flagged:{}", class));
+      if competing {
+        rep.hit("flagged:scope with competing names");
+      }
+      let got = eval_text(&scope_of(&bound), &text);
+      if got != want {
+        rep.disagree(Kind::ImplVsSpec, "flagged", &format!("{}: {}", SIG_FLAGGED, class), &format!("bound={} expression={:?}", bound_text, text), &got, &want);
+      }
+      if si % 4 == 0 {
+        let scope = scope_of(&bound);
+        let imp = impl_tokens(&scope, &text, (false, false, false, false), 400);
+        reqs.push(tokenize_request(&scope_keys, &text, (false, false, false, false), 400));
+        toks.push((scope_keys.clone(), text.clone(), imp));
+      }
+      if rep.samples.len() < 16 && class != "plain" {
+        rep.sample(json!({"family": "flagged", "class": class, "bound": bound_text, "expression": text, "implementation": got, "expected": want}));
+      }
+    }
+    // the start symbol `unary tests`: `input value in <tests>`, as a decision table asks
+    let x = *rng.pick(&[e[0].1, e[1].1, m[0].1, m[0].1 + 1, m[1].1 - 1, m[1].1]);
+    let x = x.abs();
+    for (text, want) in flagged_unary_tests(&e, &m, x) {
+      rep.case(&format!("flagged|ut|{}|{}|{}", bound_text, x, text), true);
+      rep.hit("flagged:unary-tests");
+      crate::util::note_case(&text);
+      let scope = scope_of(&bound);
+      let got = match guarded(|| match dmntk_feel_parser::parse_unary_tests(&scope, &text, false) {
+        Ok(node) => {
+          let node = AstNode::In(Box::new(AstNode::Numeric(x.to_string(), "".to_string())), Box::new(node));
+          match dmntk_feel_evaluator::evaluate(&scope, &node) {
+            Ok(v) => canon(&v),
+            Err(err) => format!("evaluate-error: {}", err),
+          }
+        }
+        Err(err) => format!("parse-error: {}", err),
+      }) {
+        Ok(s) => s,
+        Err(p) => format!("panic: {}", p),
+      };
+      if got != fb(want) {
+        rep.disagree(
+          Kind::ImplVsSpec,
+          "flagged",
+          &format!("{}: unary-tests", SIG_FLAGGED),
+          &format!("bound={} unary tests={:?} input value={}", bound_text, text, x),
+          &got,
+          &fb(want),
+        );
+      }
+    }
+  }
+  // the lexer alone on a quarter of the texts: impl = model
+  let answers = model.ask_batch(&reqs);
+  for ((keys, text, imp), a) in toks.iter().zip(answers.iter()) {
+    rep.case(&format!("tokens|{:?}|flagged|{}", keys, text), true);
+    rep.hit("tokens:flagged");
+    if let Err((what, imp, exp)) = compare_streams(imp, a) {
+      rep.disagree(Kind::ImplVsModel, "tokens", &format!("lexer token stream: {}", what), &format!("keys={:?} flags=(false, false, false, false) input={:?}", keys, text), &imp, &exp);
+    }
+  }
 }
 
 // ------------------------------------------------------------------------------------------
